@@ -31,7 +31,7 @@ LEVEL_NOTE = "trusted: the reference model in vf/models/cycle.py (its reading of
 ASSUMPTIONS = ["static doer sets (extend/remove are C06), except one family that removes running siblings once and judges only the within-cycle order and completeness of the survivors", "non-real-time mode",
                "non-dyadic cases closer than 1e-9 to a scheduling tie are skipped as ambiguous and counted"]
 NSHARDS = {"quick": 8, "thorough": 16}
-REQUIRE = {"removal_order_cases": 150, "cycles_order_checked_around_removal": 800, "recur_steps_compared": 5000, "ticks_checked": 2000, "nested_cases": 100, "nondyadic_judged": 50,
+REQUIRE = {"runs_through_ado_with_call_tyme": 300, "runs_with_extend_of_present_doers_from_inside_a_recur": 150, "removal_order_cases": 150, "cycles_order_checked_around_removal": 800, "recur_steps_compared": 5000, "ticks_checked": 2000, "nested_cases": 100, "nondyadic_judged": 50,
            "positive_tock_steps": 500}
 
 
@@ -109,6 +109,22 @@ def cases(tier, seed, shard, nshards):
         dyadic = rng.random() < 0.8
         prog = gen_sched.gen_prog(rng, dyadic=dyadic, nmax=8, depth=3,
                                   group_p=rng.choice([0.0, 0.3, 0.5]), group_tocks=(0.0,))
+        r = rng.random()
+        if r < 0.25:
+            # the asyncio entry point with the start tyme given in the call and a different (stale) tyme on the Doist
+            prog["runner"] = "ado"
+            prog["do_args"] = True
+            prog["ctor_tyme"] = rng.choice([0.0, prog["tyme"] + 4.0, 64.0])
+        elif r < 0.40:
+            # a top-level doer asks the Doist, from inside its own recur, to "keep these scheduled": every named doer is
+            # present already (itself / all members), so the doer set and the schedule stay what the model predicts
+            tops = [n_ for n_ in prog["doers"] if n_["kind"] != "dodoer" and n_.get("enter") == "ok"]
+            if tops:
+                caller = rng.choice(tops)
+                last = caller["end"][0] if caller.get("end") else 4
+                caller.setdefault("acts", {})[str(rng.randint(1, last))] = \
+                    [["extend", "doist", [rng.choice(["@self", "@members"])], False]]
+                prog["present_extend"] = True
         yield {"prog": prog}
 
 
@@ -204,6 +220,10 @@ def run_case(case, ctx):
             return
         ctx.count("nested_runs_matching_only_the_own_tock_asap_reading")
     nested = any(n["kind"] == "dodoer" for n in prog["doers"])
+    if prog.get("runner") == "ado":
+        ctx.count("runs_through_ado_with_call_tyme")
+    if prog.get("present_extend"):
+        ctx.count("runs_with_extend_of_present_doers_from_inside_a_recur")
     if nested:
         ctx.count("nested_cases")
     if not dyadic:
